@@ -260,4 +260,59 @@ Proof.
     split; [eapply Forall_impl; [|exact F2]; cbn; intros; lia|]. split; [exact F4|exact F3].
 Qed.
 
+(* ---------------------------------------------------------------- progress *)
+(* the records left of the current batch are all present *)
+Definition covered (p : apos) : Prop :=
+  match a_rs p with
+  | [] => True
+  | _ => match a_mode p with
+         | MPending => plen_of compress (a_b p) <= a_j p
+         | _ => len (erecs (a_b p) (a_rs p)) <= a_j p
+         end
+  end.
+
+Lemma covered_step p r rs' : a_rs p = r :: rs' -> covered p ->
+  exists p', step1 p = ARec r p' /\ a_rs p' = rs' /\ covered p'.
+Proof.
+  intros Hrs Hc. unfold covered in Hc. unfold ReaderV2Run.step1. rewrite Hrs in *.
+  set (b := a_b p) in *. set (L := len (enc_record (pb_base b) (pb_ts b) r)).
+  pose proof (len_nonneg (erecs b rs')) as Hn.
+  assert (Hgo : forall md jj, md <> MPending -> len (erecs b (r :: rs')) <= jj ->
+            exists p', rec_step md b r rs' (a_bs p) jj (a_off p) (a_el p) = ARec r p' /\ a_rs p' = rs' /\ covered p').
+  { intros md jj Hmd Hjj. rewrite erecs_cons, len_app in Hjj. fold L in Hjj.
+    unfold ReaderV2Run.rec_step. cbv zeta. fold L. replace (jj <? L) with false by lia.
+    eexists. split; [reflexivity|]. cbn [a_rs]. split; [reflexivity|].
+    unfold covered. cbn [a_rs a_mode a_b a_j]. destruct rs'; [exact I|]. destruct md; [lia|contradiction|lia]. }
+  destruct (a_mode p).
+  - apply Hgo; [discriminate|exact Hc].
+  - unfold ReaderV2Run.cstep. fold b. replace (a_j p <? plen_of compress b) with false by lia.
+    destruct (Hgo MInside (a_j p - plen_of compress b + len (erecs b (r :: rs'))) ltac:(discriminate) ltac:(lia)) as (p' & H1 & H2 & H3).
+    exists p'. split; [exact H1|]. split; [exact H2|exact H3].
+  - apply Hgo; [discriminate|exact Hc].
+Qed.
+
+Lemma a_read_delivers : forall rs p fuel,
+  a_rs p = rs -> covered p -> (exists r, In r rs /\ o <= r_off r) -> (length rs <= fuel)%nat ->
+  exists r p', a_read compress o fuel p = ADeliver r p'.
+Proof.
+  induction rs as [|r rs' IH]; intros p fuel Hrs Hc (r0 & Hin & Hge) Hf; [destruct Hin|].
+  destruct fuel as [|f]; [cbn [length] in Hf; lia|]. cbn [a_read].
+  destruct (covered_step p r rs' Hrs Hc) as (p' & Hs & Hrs' & Hc'). rewrite Hs.
+  destruct (r_off r <? o) eqn:E.
+  - destruct Hin as [<-|Hin]; [lia|].
+    apply (IH p' f Hrs' Hc'); [exists r0; auto|cbn [length] in Hf; lia].
+  - exists r, p'. reflexivity.
+Qed.
+
+Lemma a_run_nonempty fuel p acc ms x :
+  Inv p -> a_run compress o fuel p acc = Some (ms, x) ->
+  (exists r p', a_read compress o fuel p = ADeliver r p') -> ms <> [].
+Proof.
+  intros HI Hrun (r & p' & Hr). destruct fuel as [|f]; [discriminate|].
+  cbn [a_run] in Hrun. pose proof (a_read_spec (S f) p HI) as Hsp. rewrite Hr in Hrun, Hsp.
+  destruct Hsp as (sk & _ & _ & _ & HI' & _).
+  destruct (a_run_spec f p' (msg_of r :: acc) ms x HI' Hrun) as (Rp & Rs & _ & G2 & _).
+  rewrite G2. cbn [rev]. destruct (rev acc); discriminate.
+Qed.
+
 End Sound.
